@@ -5,6 +5,9 @@ import Strophe.Model.SendQueue
 namespace Strophe.Lemmas.SendQueue
 open Strophe Strophe.SendQueue
 
+theorem sendRaw_eq (s : St) (o : Owner) (d : Bytes) :
+    sendRaw s o d = sendRawCore s (adjustOwner s o) d := rfl
+
 /-- number of USER elements -/
 def userCount (q : List Elem) : Nat := (q.filter fun e => e.owner = .user).length
 /-- number of USER elements the write loop has not touched yet -/
@@ -136,8 +139,8 @@ theorem push_inv (s : St) (o : Owner) (d : Bytes) (l : Option Nat) (h : Inv s)
     · exact h10 e he hw
     · rfl
 
-theorem sendRaw_inv (s : St) (o : Owner) (d : Bytes) (h : Inv s) : Inv (sendRaw s o d) := by
-  unfold sendRaw
+theorem sendRaw_inv (s : St) (o : Owner) (d : Bytes) (h : Inv s) : Inv (sendRawCore s o d) := by
+  unfold sendRawCore
   split
   · exact h
   · dsimp only
@@ -431,7 +434,7 @@ theorem dropElement_inv (s : St) (w : Which) (h : Inv s) : Inv (dropElement s w)
 
 theorem inv_step (s : St) (op : Op) (h : Inv s) : Inv (step s op).1 := by
   cases op with
-  | send o d => exact sendRaw_inv s o d h
+  | send o d => exact sendRaw_inv s (adjustOwner s o) d h
   | run sched => exact runOnce_inv s sched h
   | drop w => exact dropElement_inv s w h
   | setSm b => exact h.of_eq rfl rfl rfl rfl
@@ -464,15 +467,15 @@ theorem pending_append (a b : List Elem) : pending (a ++ b) = pending a ++ pendi
 
 /-- `send`: refused when not connected; otherwise the text (followed by a linked `<r/>` when stream
     management asks for one) is appended, nothing else changes and nothing is written -/
-theorem send_appends (s : St) (o : Owner) (d : Bytes) :
-    (¬ s.connected → sendRaw s o d = s) ∧
+theorem send_appends_core (s : St) (o : Owner) (d : Bytes) :
+    (¬ s.connected → sendRawCore s o d = s) ∧
     (s.connected → ∃ extra, (extra = [] ∨ extra = Gen.reqAck) ∧
-        pending (sendRaw s o d).queue = pending s.queue ++ d ++ extra ∧
-        ∃ added, (sendRaw s o d).queue = s.queue ++ added) := by
+        pending (sendRawCore s o d).queue = pending s.queue ++ d ++ extra ∧
+        ∃ added, (sendRawCore s o d).queue = s.queue ++ added) := by
   constructor
-  · intro hc; unfold sendRaw; simp [hc]
+  · intro hc; unfold sendRawCore; simp [hc]
   · intro hc
-    unfold sendRaw
+    unfold sendRawCore
     simp only [hc, Bool.not_true, Bool.false_eq_true, if_false]
     split
     · refine ⟨Gen.reqAck, Or.inr rfl, ?_,
@@ -809,8 +812,8 @@ theorem drop_none (s : St) (w : Which) (s' : St) (h : Inv s)
 
 /-! ### disconnect notifications -/
 
-theorem sendRaw_disc (s : St) (o d) : (sendRaw s o d).disconnects = s.disconnects := by
-  unfold sendRaw
+theorem sendRaw_disc (s : St) (o d) : (sendRawCore s o d).disconnects = s.disconnects := by
+  unfold sendRawCore
   split
   · rfl
   · dsimp only
@@ -853,7 +856,7 @@ theorem dropElement_disc (s : St) (w) : (dropElement s w).1.disconnects = s.disc
 theorem at_most_one_disconnect_per_op (s : St) (op : Op) :
     (step s op).1.disconnects ≤ s.disconnects + 1 := by
   cases op with
-  | send o d => simp [step, sendRaw_disc]
+  | send o d => simp [step, sendRaw_eq, sendRaw_disc]
   | run sched =>
     simp only [step, runOnce]
     split
@@ -1096,10 +1099,10 @@ theorem hinv_append (h : Hist) (s' : St) (new : List Elem) (hi : HInv h) (hinv' 
 
 
 theorem sendRaw_shape (s : St) (o : Owner) (d : Bytes) :
-    ∃ new, (sendRaw s o d).queue = s.queue ++ new ∧
+    ∃ new, (sendRawCore s o d).queue = s.queue ++ new ∧
       (∀ e ∈ new, s.nextUid ≤ e.uid ∧ e.written = 0) ∧
-      s.nextUid ≤ (sendRaw s o d).nextUid ∧ (sendRaw s o d).smQueue = s.smQueue := by
-  unfold sendRaw
+      s.nextUid ≤ (sendRawCore s o d).nextUid ∧ (sendRawCore s o d).smQueue = s.smQueue := by
+  unfold sendRawCore
   split
   · exact ⟨[], by simp, by simp, Nat.le_refl _, rfl⟩
   · dsimp only
@@ -1189,8 +1192,8 @@ theorem stepH_run (h : Hist) (sched : List Accept) :
 
 theorem stepH_send (h : Hist) (o : Owner) (d : Bytes) :
     stepH h (.send o d) =
-      { st := sendRaw h.st o d, wire := h.wire,
-        ghost := h.ghost ++ ((sendRaw h.st o d).queue.filter fun e => h.st.nextUid ≤ e.uid).map
+      { st := sendRawCore h.st (adjustOwner h.st o) d, wire := h.wire,
+        ghost := h.ghost ++ ((sendRawCore h.st (adjustOwner h.st o) d).queue.filter fun e => h.st.nextUid ≤ e.uid).map
           fun e => (e.uid, e.data) } := rfl
 
 theorem stepH_setSm (h : Hist) (b : Bool) :
@@ -1208,7 +1211,7 @@ theorem stepH_disc (h : Hist) :
 
 theorem hinv_send (h : Hist) (o : Owner) (d : Bytes) (hi : HInv h) : HInv (stepH h (.send o d)) := by
   rw [stepH_send]
-  obtain ⟨new, h1, h2, h3, h4⟩ := sendRaw_shape h.st o d
+  obtain ⟨new, h1, h2, h3, h4⟩ := sendRaw_shape h.st (adjustOwner h.st o) d
   exact hinv_append h _ new hi (sendRaw_inv _ _ _ hi.inv) h1 h2 h3 h4
 
 theorem hinv_setSm (h : Hist) (b : Bool) (hi : HInv h) : HInv (stepH h (.setSm b)) := by
@@ -1656,5 +1659,12 @@ theorem dropped_never_on_wire (h : Hist) (w : Which) (hi : Inv h.st) (hc : h.st.
   · left
     rw [htr] at hpe
     rw [← hpe]; exact hp
+
+theorem send_appends (s : St) (o : Owner) (d : Bytes) :
+    (¬ s.connected → sendRaw s o d = s) ∧
+    (s.connected → ∃ extra, (extra = [] ∨ extra = Gen.reqAck) ∧
+        pending (sendRaw s o d).queue = pending s.queue ++ d ++ extra ∧
+        ∃ added, (sendRaw s o d).queue = s.queue ++ added) :=
+  send_appends_core s (adjustOwner s o) d
 
 end Strophe.Lemmas.SendQueue
